@@ -97,6 +97,10 @@ where
         // the filter may drop any remaining item of the source;
         // only the already buffered items are certain
         let buffered = self.buffer.len();
+        if self.done {
+            // the source has failed or ended: it will not be polled again
+            return (buffered, Some(buffered));
+        }
         let upper = self.source.size_hint_items().1;
         (buffered, upper.and_then(|u| u.checked_add(buffered)))
     }
